@@ -67,18 +67,12 @@ func newPeer(config PeerConfig, id uint32, plugin Plugin, options peerOptions) *
 
 // getFSMTransitionCh returns the stateTransition channel for the provided FSM.
 func (p *peer) getFSMTransitionCh(f *fsm) chan stateTransition {
-	if f == p.fsms[out] {
-		return p.transitionCh[out]
-	}
-	return p.transitionCh[in]
+	return p.transitionCh[f.index]
 }
 
 // getFSMErrorCh returns the error channel for the provided FSM.
 func (p *peer) getFSMErrorCh(f *fsm) chan error {
-	if f == p.fsms[out] {
-		return p.errorCh[out]
-	}
-	return p.errorCh[in]
+	return p.errorCh[f.index]
 }
 
 func other(i int) int {
@@ -118,7 +112,7 @@ func (p *peer) enableFSM(i int, conn net.Conn) {
 		return
 	}
 	if p.fsms[i] == nil {
-		p.fsms[i] = newFSM(p, conn)
+		p.fsms[i] = newFSM(p, i, conn)
 		p.fsmState[i] = disabledState
 		p.fsms[i].start()
 	}
